@@ -176,6 +176,18 @@ def search_C12(pid, budget):
         if got != exp:
             fail(pid, "TokenizerWorker.run", "stereo input with %r: observers got detections starting at %r, split() with the same "
                  "parameters gives %r" % (ukw, [g[0] for g in got], [e[0] for e in exp]))
+    # a long run: the worker's own list holds every detection
+    n += 1
+    many = synth("Aa" * 1100, 2)
+    o = Obs()
+    tw = TokenizerWorker(AudioReader(many, block_dur=0.002, sr=1000, sw=2, ch=1), [o], min_dur=0.002, max_dur=0.002, max_silence=0)
+    tw._inbox = ScriptQ(["E"] * 100000, STOPM)
+    tw.run()
+    ids_obs = [m[0] for m in o.got if m != STOPM]
+    ids_own = [d.id for d in tw.detections]
+    if ids_obs != list(range(1, 1101)) or ids_own != ids_obs:
+        fail(pid, "TokenizerWorker.run", "1100 events: observers got %d ids (%r..%r), the worker's detections list holds %d (%r..%r)" % (
+            len(ids_obs), ids_obs[:1], ids_obs[-1:], len(ids_own), ids_own[:1], ids_own[-1:]))
     # the observers are released even if closing the reader fails
     n += 1
     data = synth("aAAAaa", 10)
@@ -272,6 +284,48 @@ def search_C13(pid, budget):
                     fail(pid, "AudioEventsJoinerWorker", "joined file has %d bytes, events separated by round(%r*1000)=%d zero samples need %d" % (
                         len(got), sil, round(sil * 1000), len(exp)), pattern=pat, silence=sil)
                 jw._exported = True
+        # two-channel joiner: the gap is round(silence*rate) FRAMES of zeros
+        import struct as _st
+        n += 1
+        pat2 = "aAAAaaAAAAaa"
+        d2 = b"".join(_st.pack("<2h", v, v) for v in _st.unpack("<%dh" % (len(pat2) * 10), synth(pat2, 10)))
+        kw2 = dict(min_dur=0.02, max_dur=0.05, max_silence=0.01, analysis_window=0.01)
+        regs2 = list(split(d2, sr=1000, sw=2, ch=2, **kw2))
+        p2 = os.path.join(tmp, "j2.wav")
+        jw = AudioEventsJoinerWorker(0.025, p2, "wav", 1000, 2, 2)
+        jw._inbox = ScriptQ([(i + 1, r) for i, r in enumerate(regs2)] + ["S"], STOPM)
+        jw._post_process()
+        got2, params2 = wav_bytes(p2)
+        exp2 = (b"\0" * (25 * 4)).join(bytes(r) for r in regs2)
+        jw._exported = True
+        if got2 != exp2 or len(regs2) < 2:
+            fail(pid, "AudioEventsJoinerWorker", "two-channel stream, silence 0.025 s: joined file has %s bytes, events separated by 25 zero "
+                 "frames (100 bytes) need %d" % (len(got2) if not isinstance(got2, str) else got2, len(exp2)))
+        # -O with -j 0: the events glued back to back, not the whole stream
+        from auditok import cmdline_util as _cu
+        for jval in (0, 0.0, 0.02):
+            n += 1
+            pj = os.path.join(tmp, "jz_%d.wav" % n)
+            d1 = synth("aAAAaaAAAAaa", 10)
+            kwj = dict(input=d1, audio_format=None, max_read=None, block_dur=0.01, sampling_rate=1000, sample_width=2, channels=1,
+                       use_channel=None, save_stream=pj, save_detections_as=None, join_detections=jval, export_format=None,
+                       large_file=False, frames_per_buffer=None, input_device_index=None, record=False,
+                       min_dur=0.02, max_dur=0.05, max_silence=0.01, drop_trailing_silence=False, strict_min_dur=False,
+                       energy_threshold=50, echo=False, progress_bar=False, command=None, quiet=True, printf="{id}",
+                       time_format="%S", timestamp_format="%h:%m:%s")
+            sv, tkw = _cu.initialize_workers(**kwj)
+            tkw.start_all()
+            tkw.join(20)
+            for ob_ in tkw._observers:
+                ob_.join(20)
+            if sv is not None and hasattr(sv, "join"):
+                sv.join(20)
+            gotj, _ = wav_bytes(pj)
+            regsj = list(split(d1, sr=1000, sw=2, ch=1, min_dur=0.02, max_dur=0.05, max_silence=0.01, analysis_window=0.01))
+            expj = (b"\0" * (round(jval * 1000) * 2)).join(bytes(r) for r in regsj)
+            if gotj != expj:
+                fail(pid, "initialize_workers", "-O with a join silence of %r: the saved file has %s bytes, the joined events have %d "
+                     "(the whole stream has %d)" % (jval, len(gotj) if not isinstance(gotj, str) else gotj, len(expj), len(d1)))
         # region saver
         d = synth("aAAAaaAAAAaa", 10)
         regs = list(split(d, sr=1000, sw=2, ch=1, min_dur=0.02, max_dur=0.05, max_silence=0.01, analysis_window=0.01))
@@ -431,6 +485,35 @@ def search_C14(pid, budget):
         if alive:
             fail(pid, "stop_all", "stop_all() returned while the tokenizer thread was still running (a read blocked for 2.6 s): "
                  "observers were stopped and the reader closed under a live tokenizer; observer got ids %r" % got4)
+        # standard input fed by a producer that never closes it: a stop still terminates everything
+        import sys as _sys
+        n += 1
+        drained = threading.Event()
+
+        class LiveBuffer:
+            def read(self, k=-1):
+                if drained.is_set():
+                    return b""
+                time.sleep(0.02)
+                return bytes(k if k and k > 0 else 20)
+            read1 = read
+        old_stdin = _sys.stdin
+        _sys.stdin = type("S", (), {"buffer": LiveBuffer()})()
+        try:
+            rdl = AudioReader("-", block_dur=0.01, sr=1000, sw=2, ch=1)
+        finally:
+            _sys.stdin = old_stdin
+        tw = TokenizerWorker(rdl, [], **kw)
+        tw.start_all()
+        time.sleep(0.3)
+        done = threading.Event()
+        threading.Thread(target=lambda: (tw.stop_all(), done.set()), daemon=True).start()
+        finished = done.wait(4)
+        drained.set()
+        done.wait(5)
+        tw.join(5)
+        if not finished:
+            fail(pid, "stop_all", "live standard input (producer never closes the pipe): stop_all() had not returned after 4 s")
         # a stream that ends before any block: the saved file is still a complete (empty) wav
         for cache in (0, 0.5):
             n += 1
